@@ -17,7 +17,7 @@ Import ListNotations.
 Open Scope N_scope.
 
 (* ------------------------------------------------------------------ outcomes *)
-Inductive exn := OverflowError | ValueError | TypeError | OSError.
+Inductive exn := OverflowError | ValueError | TypeError | OSError | UnicodeDecodeError | AttributeError.
 Inductive result (A : Type) := Ok (a : A) | Raise (e : exn).
 Arguments Ok {A} a.
 Arguments Raise {A} e.
